@@ -95,4 +95,54 @@ func init() {
 		p.Thorough = p.Quick
 		props["C12"] = p
 	}
+
+	// ---- C01 ----
+	{
+		p := &Prop{ID: "C01", Outside: []string{
+			"raw bytes -> yaml.Node (yaml.v3 scanner/parser) and reflection-driven decoding of action.yml / actionlint.yaml / reusable workflow files: not encodable (DESIGN.md section 6)",
+			"Command.Main exit status, I/O, wall-clock hangs of the operating system",
+			"inputs longer than the stated bounds; node trees deeper than one injected level",
+			"YAML nodes violating yaml.v3's own invariants (odd mapping arity, children under scalars)",
+		}}
+		for L := 0; L <= 3; L++ {
+			p.Quick = append(p.Quick, HRun{Entry: "HarnessC01Expr", Args: []int64{int64(L), 1}, Bound: "lexer+parser+semantic checker on all 256^L byte strings of length L followed by }}"})
+			p.Quick = append(p.Quick, HRun{Entry: "HarnessC17Smoke", Args: []int64{int64(L), 1}, Bound: "ref glob validator, all byte strings of length L"})
+			p.Quick = append(p.Quick, HRun{Entry: "HarnessC17Smoke", Args: []int64{int64(L), 0}, Bound: "path glob validator, all byte strings of length L"})
+		}
+		for w := 0; w < 19; w++ {
+			vl := int64(2)
+			if w <= 4 {
+				vl = 3
+			}
+			p.Quick = append(p.Quick, HRun{Entry: "HarnessC01Decoders", Args: []int64{int64(w), vl}, Bound: "one YAML node: symbolic kind, tag text (lengths 0,5,6,7,8,11), style bits, value bytes, 0-2 children of the same shape", Require: []string{"returned"}})
+		}
+		p.Quick = append(p.Quick, HRun{Entry: "HarnessC01Sweep", Args: []int64{0, 0}, Bound: "every node position of the full skeleton x symbolic kind/tag x 2 texts x {no children, original children}; parser only", Require: []string{"returned"}})
+		p.Quick = append(p.Quick, HRun{Entry: "HarnessC01Render", Args: []int64{3}, Bound: "64-bit symbolic line and column, all sources of 3 bytes", Require: []string{"printed"}})
+		for L := 0; L <= 4; L++ {
+			p.Thorough = append(p.Thorough, HRun{Entry: "HarnessC01Expr", Args: []int64{int64(L), 1}, Bound: "lexer+parser+semantic checker on all 256^L byte strings of length L followed by }}"})
+			p.Thorough = append(p.Thorough, HRun{Entry: "HarnessC17Smoke", Args: []int64{int64(L), 1}, Bound: "ref glob validator, all byte strings of length L"})
+			p.Thorough = append(p.Thorough, HRun{Entry: "HarnessC17Smoke", Args: []int64{int64(L), 0}, Bound: "path glob validator, all byte strings of length L"})
+		}
+		for w := 0; w < 19; w++ {
+			p.Thorough = append(p.Thorough, HRun{Entry: "HarnessC01Decoders", Args: []int64{int64(w), 3}, Bound: "one YAML node: symbolic kind, tag text, style bits, 3 value bytes, 0-2 children", Require: []string{"returned"}})
+		}
+		p.Thorough = append(p.Thorough, HRun{Entry: "HarnessC01Sweep", Args: []int64{1, 0}, Bound: "every node position x symbolic kind/tag x 2 texts x 2 child configurations; parser and all in-process rules", Require: []string{"returned"}})
+		p.Thorough = append(p.Thorough, HRun{Entry: "HarnessC01Render", Args: []int64{5}, Bound: "64-bit symbolic line and column, all sources of 5 bytes", Require: []string{"printed"}})
+		props["C01"] = p
+	}
+	// ---- C04 ----
+	{
+		p := &Prop{ID: "C04", Outside: []string{
+			"token sequences longer than the bound; integer literals outside int32 (rejected by ParseInt, by design)",
+			"byte-level lexing is decided separately (lexer harness); identifiers other than the placeholder spelling",
+			"message text (token kind names are stubbed in this harness)",
+		}}
+		for N := 0; N <= 5; N++ {
+			p.Quick = append(p.Quick, HRun{Entry: "HarnessC04Parse", Args: []int64{int64(N)}, Bound: "all 20^N token-kind sequences of length N followed by END"})
+		}
+		for N := 0; N <= 6; N++ {
+			p.Thorough = append(p.Thorough, HRun{Entry: "HarnessC04Parse", Args: []int64{int64(N)}, Bound: "all 20^N token-kind sequences of length N followed by END"})
+		}
+		props["C04"] = p
+	}
 }
